@@ -71,5 +71,13 @@ def generate(ws, n, seed, vworker, sub="g", extra=None):
     if n <= 600:
         rc, so, se = vlib.sh(["go", "build", "./%s/..." % sub], cwd=ws, timeout=1200)
         if rc != 0:
-            vlib.harness_fail("generated packages do not compile (generator defect): " + se[-1500:])
+            import re
+            import sys
+            bad = set("./" + m for m in re.findall(r"^# vws/(%s/p\d+)" % re.escape(sub), se, re.M))
+            # a defect of the generator at this seed: the affected packages are left out (and named on stderr);
+            # more than a handful means the generator itself is broken
+            if not bad or len(bad) > max(2, n // 50):
+                vlib.harness_fail("generated packages do not compile (generator defect): " + se[-1500:])
+            sys.stderr.write("note: %d generated package(s) do not compile and are left out: %s\n%s\n" % (len(bad), sorted(bad), se[-600:]))
+            pats = [p for p in pats if p not in bad]
     return pats, man
